@@ -63,6 +63,44 @@ func (k *keeper) recheck(l *live, c int, when string) {
 	}
 }
 
+// stalledTransfer: a transfer that stalls for more than 5 s (real time): its first part was handed to the join callback;
+// the re-request the server then builds (a numbered platform message like any other), and the completion afterwards,
+// must leave that message as delivered
+func stalledTransfer(l *live, kp *keeper) {
+	recheck := func(t *term, when string) {
+		if kp != nil {
+			kp.recheck(l, t.idx, when)
+		}
+	}
+	phone := []byte{0x01, 0x30, 0x00, 0x00, 0x08, 0x01}
+	t := l.dial(phone, 0)
+	part := func(no int) {
+		b := make([]byte, 30)
+		for k := range b {
+			b[k] = byte(0x30 + no*4 + k)
+		}
+		t.send(buildFrame(hdrSpec{id: 0x0801, serial: t.nextSerial(), frag: 1, total: 3, no: no, phone: phone, body: b}))
+	}
+	t.send(t.frame(0x0002, nil)) // platform serial 0 is used up before the re-request
+	part(1)
+	time.Sleep(5300 * time.Millisecond)
+	l.rec.log(t.idx, "D", "tick", "ms", 5300)
+	before := t.nrecv.Load()
+	t.send(t.frame(0x0002, nil))
+	t.waitRecv(before+2, 10*time.Second) // the heartbeat's reply and the 0x8003
+	recheck(t, "after-re-request")
+	t.send(t.frame(0x0002, nil))
+	part(2)
+	part(3)
+	t.waitRecv(before+4, 10*time.Second) // the 0x8800 for the completed message
+	recheck(t, "after-late-completion")
+	time.Sleep(30 * time.Millisecond)
+	l.rec.log(t.idx, "D", "end")
+	t.close(false)
+	time.Sleep(50 * time.Millisecond)
+	recheck(t, "after-close")
+}
+
 func init() {
 	// live-c09 <connections> <messages> <trace>
 	cmds["live-c09"] = func(a []string) {
@@ -91,36 +129,10 @@ func init() {
 		}
 		r := newRand(909)
 		var wg sync.WaitGroup
-		// a transfer that stalls for more than 5 s (real time): its first part was handed to the join callback; the
-		// re-request the server then builds, and the completion afterwards, must leave that message as delivered
 		wg.Add(1)
 		go func() {
 			defer wg.Done()
-			phone := []byte{0x01, 0x30, 0x00, 0x00, 0x08, 0x01}
-			t := l.dial(phone, 0)
-			part := func(no int) {
-				b := make([]byte, 30)
-				for k := range b {
-					b[k] = byte(0x30 + no*4 + k)
-				}
-				t.send(buildFrame(hdrSpec{id: 0x0801, serial: t.nextSerial(), frag: 1, total: 3, no: no, phone: phone, body: b}))
-			}
-			part(1)
-			time.Sleep(5300 * time.Millisecond)
-			l.rec.log(t.idx, "D", "tick", "ms", 5300)
-			before := t.nrecv.Load()
-			t.send(t.frame(0x0002, nil))
-			t.waitRecv(before+2, 10*time.Second) // the heartbeat's reply and the 0x8003
-			kp.recheck(l, t.idx, "after-re-request")
-			part(2)
-			part(3)
-			t.waitRecv(before+3, 10*time.Second) // the 0x8800 for the completed message
-			kp.recheck(l, t.idx, "after-late-completion")
-			time.Sleep(30 * time.Millisecond)
-			l.rec.log(t.idx, "D", "end")
-			t.close(false)
-			time.Sleep(50 * time.Millisecond)
-			kp.recheck(l, t.idx, "after-close")
+			stalledTransfer(l, kp)
 		}()
 		for c := 0; c < nconn; c++ {
 			ver := c % 2
@@ -148,7 +160,16 @@ func init() {
 					if id == 0x0801 {
 						body = append(body, make([]byte, 36)...)
 					}
-					switch rr.Intn(6) {
+					switch rr.Intn(7) {
+					case 6: // a frame whose header names another phone or uses the other header version (a forwarder's connection)
+						oh := hdrSpec{id: id, serial: t.nextSerial(), ver: t.ver, verbyte: 1, phone: t.phone, body: body}
+						if rr.Intn(2) == 0 {
+							oh.ver = 1 - t.ver
+							oh.phone = randPhone(rr, oh.ver)
+						} else {
+							oh.phone = randPhone(rr, t.ver)
+						}
+						t.send(buildFrame(oh))
 					case 5: // the first packet of a transfer shares its read with the next message; the transfer completes in later reads
 						mk := func(no int) []byte {
 							b := make([]byte, 24+no)
